@@ -10,6 +10,7 @@ import (
 	"sort"
 	"strings"
 	"sync"
+	"sync/atomic"
 	"time"
 )
 
@@ -123,6 +124,15 @@ func cmdRun(args []string) {
 	fs.Parse(args)
 
 	t0 := time.Now()
+	// generous wall-clock watchdog: its firing is "inconclusive", never a violation by itself
+	limit := 12 * time.Minute
+	if *tier == "thorough" {
+		limit = 100 * time.Minute
+	}
+	go func() {
+		time.Sleep(limit)
+		atomic.StoreInt32(&watchdogFired, 1)
+	}()
 	n := 500
 	if *tier == "thorough" {
 		n = 12000
@@ -142,7 +152,7 @@ func cmdRun(args []string) {
 			}
 		}})
 	}
-	jobs = append(jobs, directedJobs(*prop, *tier, *seed)...)
+	jobs = append(directedJobs(*prop, *tier, *seed), jobs...) // the long directed jobs first
 	want := func(p string) bool { return *prop == "all" || *prop == p }
 	stats := runJobs(jobs, *workers, func(st *Stats) *Mon {
 		m := NewMon(st)
@@ -166,6 +176,12 @@ func cmdRun(args []string) {
 		code := report(p, *tier, *seed, stats, kf, *outDir, time.Since(t0), *verbose)
 		if code > exit {
 			exit = code
+		}
+	}
+	if expired() {
+		fmt.Printf("INCONCLUSIVE watchdog: the workload did not finish within %s; what was observed until then is reported above\n", limit)
+		if exit == 0 {
+			exit = 3
 		}
 	}
 	if stats.Hits["harness/panic"] > 0 {
@@ -297,15 +313,15 @@ func writeEvidence(p, tier string, seed int64, stats *Stats, outDir string, wall
 		"seed":        seed,
 		"level":       "exploration",
 		"coverage": map[string]interface{}{
-			"evaluations":         stats.Evaluations[p],
-			"distinct_nontrivial": len(stats.Situations[p]),
-			"rule":                "evaluations = steps/states/cases on which this property's monitor rules were judged; a case is non-trivial when a rule's precondition actually applied (non-vacuous), and distinct by (rule, operation kind, outcome, small abstraction of the records involved)",
-			"samples":             samples,
-			"histories":           stats.Histories,
-			"steps":               stats.Steps,
-			"rule_hits":           hits,
-			"situations_sample":   sits,
-			"operation_outcomes":  stats.OpKinds,
+			"evaluations":               stats.Evaluations[p],
+			"distinct_nontrivial":       len(stats.Situations[p]),
+			"rule":                      "evaluations = steps/states/cases on which this property's monitor rules were judged; a case is non-trivial when a rule's precondition actually applied (non-vacuous), and distinct by (rule, operation kind, outcome, small abstraction of the records involved)",
+			"samples":                   samples,
+			"histories":                 stats.Histories,
+			"steps":                     stats.Steps,
+			"rule_hits":                 hits,
+			"situations_sample":         sits,
+			"operation_outcomes":        stats.OpKinds,
 			"rules_without_observation": missing,
 		},
 		"assumptions": assumptions,
@@ -346,7 +362,7 @@ var mandatory = map[string][]string{
 	"C17": {"definition", "binding", "bindings-of-service", "bindings-of-service-and-owner", "pending-requests-of-binding", "earned-fees", "withdraw-address", "request-context", "requests-of-batch", "responses-of-batch", "request", "response", "params", "schema"},
 	"C18": {"context-id", "request-id", "keys-distinct", "scan-exact", "issue-event-position"},
 	"C19": {"prep-returns-escrow", "export-validates", "json-roundtrip", "import-export-identity"},
-	"C20": {"no-panic", "replay-identical", "replay-identical-across-processes"},
+	"C20": {"no-panic", "replay-identical", "replay-identical-across-processes", "replay-identical-across-wall-clock"},
 }
 
 func cmdReplay(args []string) {
